@@ -155,6 +155,22 @@ theorem reset_equiv_false_dedupeCarry :
       [.write 2 [wrote ⟨⟨0, 1⟩, ⟨0, 1⟩, ⟨0, 1⟩, ⟨0, 1⟩, 2, 0, 2, 0, 0⟩ [1, 2]], .sortChunk [9],
        .close (.committed 100 [] [2]) true 180])) ≠ observe dedupeCarry (init cfgA) := by decide
 
+/-- the geospatial accumulator of a GEOMETRY / GEOGRAPHY column: `Reset` (and the per-row-group
+reset) must clear every flag. For a variant of the code whose accumulator reset leaves `hasM` set
+(seeded change C17-4a) a writer that has seen a geometry with an M coordinate (mask 1+2+16+32+64)
+differs from a fresh one after `write; close; reset` — the next chunk's bounding box carries an M
+range [+Inf, -Inf] — and already after the flush inside one file. -/
+theorem reset_equiv_false_geoKeepsHasM :
+    observe geoKeepsHasM (resetWith geoKeepsHasM (history geoKeepsHasM cfgA
+      [.write 2 [{ wrote ⟨⟨0, 1⟩, ⟨0, 1⟩, ⟨0, 1⟩, ⟨0, 1⟩, 2, 0, 2, 0, 0⟩ [1, 2] with geo := 115 }],
+       .close (.committed 100 [] [2]) true 180])) ≠ observe geoKeepsHasM (init cfgA) ∧
+    (history geoKeepsHasM cfgA
+      [.write 2 [{ wrote ⟨⟨0, 1⟩, ⟨0, 1⟩, ⟨0, 1⟩, ⟨0, 1⟩, 2, 0, 2, 0, 0⟩ [1, 2] with geo := 115 }],
+       .flush (.committed 100 [] [2])]).cols.map (·.vol.geo) = [16] ∧
+    (history fixed cfgA
+      [.write 2 [{ wrote ⟨⟨0, 1⟩, ⟨0, 1⟩, ⟨0, 1⟩, ⟨0, 1⟩, 2, 0, 2, 0, 0⟩ [1, 2] with geo := 115 }],
+       .flush (.committed 100 [] [2])]).cols.map (·.vol.geo) = [0] := by decide
+
 /-- the full-strength statement is false for the as-is mirror -/
 theorem reset_equiv_asIs_false :
     ¬ ∀ (cfg : Cfg) (ops : List Op),
